@@ -385,6 +385,8 @@ class QuadraticSVC(BaseDatafit):
         return norm(yXT, ord=2) ** 2
 
     def get_global_lipschitz_sparse(self, yXT_data, yXT_indptr, yXT_indices, y):
+        if len(yXT_indices) == 0:  # all-zero matrix
+            return 0.
         return spectral_norm(
             yXT_data, yXT_indptr, yXT_indices, max(yXT_indices)+1) ** 2
 
